@@ -14,11 +14,15 @@ PARTIAL = [
     "expandCellsToDensity <= target*rowArea*(1+2^-50) + touchedCells*2^-51*maxHeight (expandF_utilisation), the maximum "
     "rule of computeCellExpansion over the float-rounded region factors, independent of the order left by std::sort "
     "(cellExpansionF_max, cellExpansionF_order_independent, regionFactorF_ge_one_and_monotone)",
-    "NOT proved with rounding: the utilisation cap of expandCellsByFactor (byFactorF_utilisation_full_statement: <= "
-    "max(maxDensity*rowArea, area before)*(1+2^-22) + n*2^-50*sum(e_i*area_i)); proved part byFactorF_utilisation_partial: "
-    "area after <= (1+2^-24) * sum(applied factor_i * area_i) (the float path, widths <= 2^24; (1+2^-24)^2 for any width, byFactorF_utilisation_partial_any_width), every applied factor >= 0.999f (>= 1 when "
-    "the given one is); the double path (expandedArea accumulation, expandedDensity, ratio) is proved only in exact "
-    "arithmetic (byFactor_under_cap) and supported with rounding by the exact correspondence and the oracle (1e-6)",
+    "utilisation cap of expandCellsByFactor with rounding: PROVED for the branch without ratio adjustment "
+    "(byFactorF_cap_unadjusted: area after * (1-2^-53)^(4n+1) <= (1+2^-24)^2 * (1+2^-53) * maxDensity * rowArea, any widths, "
+    "accepted factors, rowArea <= 2^63), from the accumulation-error theorem byFactorF_expandedArea_error (exact sum * "
+    "(1-2^-53)^(4n) <= accumulated double, which is 0 or >= 1/4) and the float-path theorems "
+    "(byFactorF_utilisation_partial: (1+2^-24) for widths <= 2^24; byFactorF_utilisation_partial_any_width: (1+2^-24)^2; every "
+    "applied factor >= 0.999f, >= 1 when the given one is); NOT proved: the branch in which the factors are scaled by `ratio` "
+    "(byFactorF_utilisation_full_statement stays a def: <= max(maxDensity*rowArea, area before)*(1+2^-22) + "
+    "n*2^-50*sum(e_i*area_i)); that branch is proved only in exact arithmetic (byFactor_under_cap) and supported with rounding "
+    "by the exact correspondence and the oracle (1e-6)",
     "NOT proved with rounding: the 'within one cell height of target*rowArea' clause (carry_bound (2), exact arithmetic only)",
     "never narrower for expandCellsByFactor is proved for ALL widths (byFactorF_not_narrower, no 2^24 bound) for the code after "
     "fixes/c18-byfactor-wide-cells.diff; before it a width above 2^24 could shrink (int -> float conversion): "
